@@ -112,7 +112,7 @@ base64_decode_single(struct base64_decode_ctx *ctx,
 
     case TABLE_END:
         /* There can be at most two padding characters. */
-        if (!ctx->bits || ctx->padding > 2)
+        if (!ctx->bits || ctx->padding >= 2)
             return -1;
 
         if (ctx->word & ( (1<<ctx->bits) - 1))
